@@ -28,7 +28,7 @@ man={
  "setup_cmd":"./setup.sh && ./prebuild.sh",
  "hooks":{
   "guard":"verif",
-  "enable":"go1.26.8 test -c -tags verif[,invariants] -overlay /verif/.build/overlay.json (runtime overlay + yield-instrumented copy of storage.go); see build.sh",
+  "enable":"go1.26.8 test -c -tags verif[,invariants] -overlay /verif/.build/overlay.json (runtime overlay + yield-instrumented copies of storage/pebble/storage.go and portalwire/table.go, table_reval.go + a yield hook file added to package portalwire by the overlay only); see build.sh",
   "baseline_off_cmd":meta['baseline_off_cmd'],
   "source_commits":meta['hook_commits'],
   "add_only":True,
